@@ -138,3 +138,154 @@ Proof.
     pose proof (export_param_params fixed3 _ ([], None) _ _ "header"%string Hl eq_refl eq_refl) as H.
     unfold oparam_of in H. cbn [wp_ty wp_in] in H. rewrite w_opt_map_type in H. exact H.
 Qed.
+
+(* ------------------------------------------------------------------ request body *)
+Lemma fold_mset_In_inv {A V} (key:A -> N) (val:A -> V) : forall l m0 kv,
+  In kv (fold_left (fun m a => mset (key a) (val a) m) l m0) -> In kv m0 \/ exists a, In a l /\ kv = (key a, val a).
+Proof.
+  induction l as [|x t IH]; intros m0 kv H; cbn [fold_left] in H; [left; exact H|].
+  destruct (IH _ _ H) as [E|[a [Ha E]]].
+  - destruct (mset_In_inv _ _ _ _ E) as [->|E']; [right; exists x; split; [left; reflexivity|reflexivity]|left; exact E'].
+  - right. exists a. split; [right; exact Ha|exact E].
+Qed.
+
+(* every entry of the parameter map comes from a declared parameter *)
+Lemma map_params_entries : forall e kv, In kv (map_params ido e) ->
+  (exists p, In p (e_params e) /\ kv = (sp_name p, hdr_val p)) \/
+  (exists p, In p (e_query e) /\ kv = (q_name p, qry_val p)) \/
+  (exists p, In p (e_url e) /\ kv = (q_name p, url_val p)).
+Proof.
+  intros e kv H. rewrite map_params_eq in H.
+  destruct (fold_mset_In_inv q_name url_val _ _ _ H) as [H1|[p [Hp E]]]; [|right; right; exists p; split; assumption].
+  destruct (fold_mset_In_inv q_name qry_val _ _ _ H1) as [H2|[p [Hp E]]]; [|right; left; exists p; split; assumption].
+  destruct (fold_mset_In_inv sp_name hdr_val _ _ _ H2) as [[]|[p [Hp E]]]. left. exists p. split; assumption.
+Qed.
+
+Definition obody_of (tb:tables3) (w:wparam) : obody :=
+  {| ob_required := flag (t_body_required_negated tb) (w_opt (wp_ty w)); ob_schema := Some (export_type tb ido (wp_ty w)) |}.
+
+Lemma export_param_body_keep : forall tb l acc,
+  (forall x, In x l -> exists loc, find_str (wp_in (snd x)) (t_param_in tb) = Some loc /\ String.eqb loc "body" = false) ->
+  snd (fold_left (export_param tb ido) l acc) = snd acc.
+Proof.
+  intros tb. induction l as [|x t IH]; intros acc H; [reflexivity|]. cbn [fold_left].
+  rewrite IH by (intros y Hy; apply H; right; exact Hy).
+  destruct (H x (or_introl eq_refl)) as [loc [Hf Hb]]. unfold export_param. rewrite Hf, Hb. reflexivity.
+Qed.
+
+Lemma export_param_body : forall tb l acc n w,
+  NoDup l -> In (n,w) l -> find_str (wp_in w) (t_param_in tb) = Some "body"%string ->
+  (forall x, In x l -> x <> (n,w) -> exists loc, find_str (wp_in (snd x)) (t_param_in tb) = Some loc /\ String.eqb loc "body" = false) ->
+  snd (fold_left (export_param tb ido) l acc) = Some (obody_of tb w).
+Proof.
+  intros tb. induction l as [|x t IH]; intros acc n w Hnd Hin Hf Hoth; [destruct Hin|]. cbn [fold_left].
+  inversion Hnd as [|? ? Hnx Hnt]; subst. destruct Hin as [->|Hin].
+  - rewrite export_param_body_keep.
+    + unfold export_param. cbn [snd fst]. rewrite Hf. reflexivity.
+    + intros y Hy. apply Hoth; [right; exact Hy|]. intros ->. exact (Hnx Hy).
+  - apply (IH _ n w Hnt Hin Hf). intros y Hy Hne. apply Hoth; [right; exact Hy|exact Hne].
+Qed.
+
+(* HEADLINE (endpoints, request body): when exactly one parameter carries ~body (and parameter names are distinct), the
+   operation's request body is that parameter: required exactly when it is not optional, with the schema of its type *)
+Theorem export_complete_body : forall a n e p, NoDup (param_names e) ->
+  In p (e_params e) -> sp_body p = true -> (forall q, In q (e_params e) -> sp_body q = true -> q = p) ->
+  o_body (export_operation fixed3 ido (snd (build_ep fixed3 ido a (n,e)))) =
+    Some {| ob_required := negb (sty_opt (sp_ty p)); ob_schema := Some (export_type fixed3 ido (map_type ido (sp_ty p))) |}.
+Proof.
+  intros a n e p Hnd Hin Hb Huniq. unfold build_ep. cbn [snd fst]. unfold export_operation. cbn [o_body w_params].
+  change (t_params_loop fixed3) with LoopSortedKeys.
+  pose proof (map_params_wf ido e) as [Hk _].
+  pose proof (map_params_hdr e p Hnd Hin) as Hg. unfold hdr_val in Hg. rewrite Hb in Hg.
+  set (w := {| wp_in := "body"; wp_ty := map_type ido (sp_ty p) |}) in *.
+  pose proof (loop_sorted_reaches _ _ _ Hk Hg) as Hl.
+  assert (HLnd : NoDup (loop_entries LoopSortedKeys ido (map_params ido e))).
+  { cbn [loop_entries]. rewrite range_ido by exact Hk.
+    eapply Permutation_NoDup; [|apply NoDup_keys_NoDup, Hk].
+    apply Permutation_sym. etransitivity; [apply entries_at_perm, Permutation_sym, nsort_perm_self|].
+    rewrite entries_at_self by exact Hk. apply Permutation_refl. }
+  rewrite (export_param_body fixed3 _ ([], None) (sp_name p) w HLnd Hl eq_refl).
+  - unfold obody_of, w. cbn [wp_ty]. rewrite w_opt_map_type. reflexivity.
+  - intros x Hx Hne. cbn [loop_entries] in Hx. apply entries_at_sub in Hx.
+    destruct (map_params_entries e x Hx) as [[q [Hq ->]]|[[q [Hq ->]]|[q [Hq ->]]]]; cbn [snd].
+    + unfold hdr_val. destruct (sp_body q) eqn:Eq.
+      * exfalso. apply Hne. rewrite (Huniq q Hq Eq). unfold hdr_val, w. rewrite Hb. reflexivity.
+      * exists "header"%string. split; reflexivity.
+    + exists "query"%string. split; reflexivity.
+    + exists "path"%string. split; reflexivity.
+Qed.
+
+(* ------------------------------------------------------------------ responses *)
+(* the entry mapResponse writes for one return statement *)
+Definition ret_keep (tb:tables3) (types:list (name*sty)) (appn:name) (r:sret) : bool :=
+  negb (rt_bare r) || (t_bare_status_kept tb && match map_ret_type tb types appn (rt_shape r) with None => true | Some _ => false end).
+Definition ret_key tb types appn (n200:name) (r:sret) : name := if ret_keep tb types appn r then rt_name r else n200.
+Definition ret_val tb types appn (r:sret) : wresp :=
+  if ret_keep tb types appn r
+  then {| wr_isok := rt_isok r; wr_atoi := rt_atoi r; wr_ty := map_ret_type tb types appn (rt_shape r) |}
+  else {| wr_isok := false; wr_atoi := Some 200%Z; wr_ty := map_ret_type tb types appn (rt_shape r) |}.
+
+Lemma map_response_eq : forall tb types appn n200 rets,
+  map_response tb types appn n200 rets = fold_left (fun m r => mset (ret_key tb types appn n200 r) (ret_val tb types appn r) m) rets [].
+Proof.
+  intros. unfold map_response. apply fold_left_ext_in. intros x acc _. unfold ret_key, ret_val, ret_keep. cbv zeta.
+  destruct (negb (rt_bare x) || _); reflexivity.
+Qed.
+
+Definition rvalue_of (tb:tables3) (w:wresp) : rvalue :=
+  match wr_ty w with
+  | Some t => RContent (Some (export_type tb ido t))
+  | None => if t_content_guarded tb then RNoContent else RContent None
+  end.
+
+Lemma export_resp_fold_in : forall tb l m0 e, NoDup (map (fun x => resp_code (snd x)) l) -> In e l ->
+  mget (resp_code (snd e)) (fold_left (export_resp tb ido) l m0) = Some (rvalue_of tb (snd e)).
+Proof.
+  intros tb l m0 e Hnd Hin.
+  assert (E : fold_left (export_resp tb ido) l m0 = fold_left (fun m x => mset (resp_code (snd x)) (rvalue_of tb (snd x)) m) l m0).
+  { apply fold_left_ext_in. intros x acc _. unfold export_resp, rvalue_of. destruct (wr_ty (snd x)); reflexivity. }
+  rewrite E. apply (mget_fold_mset_in (fun x : name*wresp => resp_code (snd x)) (fun x => rvalue_of tb (snd x))); assumption.
+Qed.
+
+(* HEADLINE (endpoints, responses): when the return statements of an endpoint have distinct response names and distinct
+   status keys (ok = 200, a number in 1..999 = itself, anything else = default), every return statement is the response
+   under its status key, with content = the schema of its payload type (a media type without schema when the payload
+   is absent or does not resolve to a type) *)
+Theorem export_complete_responses : forall a n e r,
+  let tb := fixed3 in
+  NoDup (map (ret_key tb (a_types a) (a_name a) (a_n200 a)) (e_rets e)) ->
+  NoDup (map (fun r => resp_code (ret_val tb (a_types a) (a_name a) r)) (e_rets e)) ->
+  In r (e_rets e) ->
+  mget (resp_code (ret_val tb (a_types a) (a_name a) r)) (o_resps (export_operation tb ido (snd (build_ep tb ido a (n,e))))) =
+    Some (rvalue_of tb (ret_val tb (a_types a) (a_name a) r)).
+Proof.
+  intros a n e r tb Hk Hc Hin. subst tb. unfold build_ep. cbn [snd fst]. unfold export_operation. cbn [o_resps w_resp].
+  change (t_responses_loop fixed3) with LoopSortedKeys.
+  set (types := a_types a) in *. set (appn := a_name a) in *. set (n200 := a_n200 a) in *.
+  set (W := map_response fixed3 types appn n200 (e_rets e)).
+  pose proof (map_response_wf fixed3 types appn n200 (e_rets e)) as [HWk _]. fold W in HWk.
+  assert (HW : forall r0, In r0 (e_rets e) -> mget (ret_key fixed3 types appn n200 r0) W = Some (ret_val fixed3 types appn r0)).
+  { intros r0 H0. unfold W. rewrite map_response_eq.
+    apply (mget_fold_mset_in (ret_key fixed3 types appn n200) (ret_val fixed3 types appn)); assumption. }
+  assert (HWsub : forall kv, In kv W -> exists r0, In r0 (e_rets e) /\ kv = (ret_key fixed3 types appn n200 r0, ret_val fixed3 types appn r0)).
+  { intros kv H0. unfold W in H0. rewrite map_response_eq in H0.
+    destruct (fold_mset_In_inv _ _ _ _ _ H0) as [[]|X]. exact X. }
+  set (L := loop_entries LoopSortedKeys ido W).
+  assert (HLin : In (ret_key fixed3 types appn n200 r, ret_val fixed3 types appn r) L) by (apply loop_sorted_reaches; [exact HWk|apply HW, Hin]).
+  assert (HLp : Permutation L W).
+  { unfold L. cbn [loop_entries]. rewrite range_ido by exact HWk.
+    etransitivity; [apply entries_at_perm, Permutation_sym, nsort_perm_self|]. rewrite entries_at_self by exact HWk. apply Permutation_refl. }
+  assert (HLc : NoDup (map (fun x : name*wresp => resp_code (snd x)) L)).
+  { eapply Permutation_NoDup; [apply Permutation_sym, Permutation_map, HLp|].
+    (* W is, up to order, the image of the return statements *)
+    assert (HWp : Permutation W (map (fun r0 => (ret_key fixed3 types appn n200 r0, ret_val fixed3 types appn r0)) (e_rets e))).
+    { apply NoDup_Permutation.
+      - apply NoDup_keys_NoDup, HWk.
+      - apply NoDup_keys_NoDup. rewrite map_map. cbn [fst]. exact Hk.
+      - intros kv. split; intro H0.
+        + destruct (HWsub kv H0) as [r0 [Hr0 ->]]. apply in_map_iff. exists r0. split; [reflexivity|exact Hr0].
+        + apply in_map_iff in H0. destruct H0 as [r0 [<- Hr0]]. apply mget_In, HW, Hr0. }
+    eapply Permutation_NoDup; [apply Permutation_sym, Permutation_map, HWp|]. rewrite map_map. cbn [snd]. exact Hc. }
+  destruct L as [|x rest] eqn:EL; [destruct HLin|]. rewrite <- EL in *.
+  exact (export_resp_fold_in fixed3 L [(0%N, RNoContent)] _ HLc HLin).
+Qed.
